@@ -31,6 +31,9 @@ var (
 	bigRatOne    = big.NewRat(1, 1)
 )
 
+// maxDoubleExponent is the largest binary exponent of a float64.
+const maxDoubleExponent = 1024
+
 func (dec *Decoder) stringToBigInt(s string, t reflect.Type) *big.Int {
 	if bi, ok := new(big.Int).SetString(s, 10); ok {
 		return bi
@@ -99,6 +102,12 @@ func (dec *Decoder) decodeBigInt(t reflect.Type, tag byte, p **big.Int) {
 		*p = dec.readBigInt(t)
 	case TagDouble:
 		if bf := dec.readBigFloat(t); bf != nil {
+			// a double does not exceed 2^1024; for a larger exponent Int would
+			// materialise as many bits as the few digits of the exponent say
+			if bf.MantExp(nil) > maxDoubleExponent {
+				dec.decodeStringError(bf.Text('p', 0), t.String())
+				return
+			}
 			*p, _ = bf.Int(nil)
 		}
 	case TagUTF8Char:
